@@ -1269,6 +1269,12 @@ func (ex *Exec) typeSwitchStmt(st *State, s *ast.TypeSwitchStmt, c *ctl, k func(
 func (ex *Exec) typeAssert(st *State, x Val, t types.Type) (Val, string) {
 	ex.declare("(declare-fun typeOf (Ref) Int)")
 	s := ex.sortOf(t)
+	if tp, isTP := t.(*types.TypeParam); isTP && typeParamIsConcreteUnion(tp) {
+		// x.(T) with T a type parameter constrained to a union of non-interface types: every instance of T is a
+		// concrete type, so the assertion is an exact dynamic-type test (the same term typeId(T) denotes in specs)
+		ok := and(not(eq(x.T, "0")), eq(app("typeOf", x.T), ex.typeTag(t)))
+		return Val{T: ite(ok, x.T, "0"), S: SRef, GoT: t}, ok
+	}
 	if _, isIface := under(t).(*types.Interface); isIface {
 		ex.declare("(declare-fun implements (Int Int) Bool)")
 		ok := and(not(eq(x.T, "0")), app("implements", app("typeOf", x.T), ex.typeTag(t)))
@@ -1332,4 +1338,25 @@ func (ex *Exec) runDefers(st *State, k func(*State)) {
 		frame[i](st, func(st2 *State) { rec(st2, i-1) })
 	}
 	rec(st, len(frame)-1)
+}
+
+// typeParamIsConcreteUnion: the constraint is a union of non-interface types without methods (string | bool).
+func typeParamIsConcreteUnion(tp *types.TypeParam) bool {
+	iface, ok := tp.Constraint().Underlying().(*types.Interface)
+	if !ok || iface.NumMethods() > 0 || iface.NumEmbeddeds() != 1 {
+		return false
+	}
+	u, ok := iface.EmbeddedType(0).(*types.Union)
+	if !ok {
+		return false
+	}
+	for i := 0; i < u.Len(); i++ {
+		if u.Term(i).Tilde() {
+			return false
+		}
+		if _, isIface := u.Term(i).Type().Underlying().(*types.Interface); isIface {
+			return false
+		}
+	}
+	return u.Len() > 0
 }
